@@ -5,7 +5,7 @@ import gens_algos
 from props.common import TRUSTED_BASE, ASSUMPTIONS
 
 ID = "C01"
-LEAN_MODULES = ["LexVerif.Props.C01", "LexVerif.Props.RoundNE", "LexVerif.Props.TablesParse", "LexVerif.Props.Literals.ParseFloatParse", "LexVerif.Props.Literals.ParseFloatNumber", "LexVerif.Props.Literals.ParseFloatLemire", "LexVerif.Props.Literals.ParseFloatBellerophon", "LexVerif.Props.Literals.ParseFloatSlow", "LexVerif.Props.Literals.ParseFloatBigint", "LexVerif.Props.Literals.ParseFloatShared", "LexVerif.Props.Literals.ParseFloatFloat", "LexVerif.Props.Literals.ParseFloatMask", "LexVerif.Props.Literals.ParseFloatLimits", "LexVerif.Props.Literals.ParseIntegerAlgorithm", "LexVerif.Props.Literals.UtilDigit", "LexVerif.Props.Literals.UtilStep", "LexVerif.Props.LiteralsModel"]
+LEAN_MODULES = ["LexVerif.Props.C01", "LexVerif.Props.RoundNE", "LexVerif.Props.TablesParse", "LexVerif.Props.Literals.ParseFloatParse", "LexVerif.Props.Literals.ParseFloatNumber", "LexVerif.Props.Literals.ParseFloatLemire", "LexVerif.Props.Literals.ParseFloatBellerophon", "LexVerif.Props.Literals.ParseFloatSlow", "LexVerif.Props.Literals.ParseFloatBigint", "LexVerif.Props.Literals.ParseFloatShared", "LexVerif.Props.Literals.ParseFloatFloat", "LexVerif.Props.Literals.ParseFloatMask", "LexVerif.Props.Literals.ParseFloatLimits", "LexVerif.Props.Literals.ParseIntegerAlgorithm", "LexVerif.Props.Literals.UtilDigit", "LexVerif.Props.Literals.UtilStep", "LexVerif.Props.LiteralsModel", "LexVerif.Props.C01Main"]
 GEN = ["parse_tables", "literals"]
 TRUSTED = TRUSTED_BASE + [
     "Eisel-Lemire is proved only on the exact-product range 0 <= q <= 27, the two cut-offs and for the many_digits wrapper (relative to compute_float); for q in [-342,-1] and [28,308] (truncated table rows) and for the big-integer slow path correctness is NOT proved in Lean: there the Lean model (Model/Lemire.lean) is tied to the code by component-level correspondence and compared with the oracle on number-theoretic worst cases; Bellerophon (compact builds) IS proved sound on its Lean model (Props/C01.lean bellerophon_sound), the model being tied to the code by the bel component stream",
@@ -30,12 +30,14 @@ def feature_sets(tier):
 
 def streams(tier, rng, fs, profile):
     n = 250 if tier == "quick" else 4000
-    return [
+    api = [
         ("g-hard", gens.float_parse_hard_ops(rng, fs, [10], n, rich=True, tails=8 if tier == "quick" else 120)),
         ("g-ties", gens.exact_tie_ops(rng, fs, per_q=6 if tier == "quick" else 60)),
         ("g-exp", gens.float_exp_ops(rng, fs, [10])),
         ("g-random", gens.float_random_ops(rng, fs, [10], 1500 if tier == "quick" else 30000)),
-    ] + gens_algos.algo_streams(rng, fs, tier)   # component level: compute_float / lemire / bellerophon / binary / fast path
+    ]
+    # pipe-*: the same inputs against the algorithmic pipeline model (Props.C01Main is about that model)
+    return api + gens_algos.apf_streams(api) + gens_algos.algo_streams(rng, fs, tier)   # component level: compute_float / lemire / bellerophon / binary / fast path
 
 
 def nontrivial(op, res):
